@@ -4,7 +4,7 @@ Require Extraction.
 Require Import ExtrOcamlBasic.
 Extraction Language OCaml.
 Extraction "core_model.ml"
-  new_builder new_builder_v run_calls run_extend apply_op b_finish b_finish_full b_count b_stats b_len build_map_v
+  new_builder new_builder_v run_calls run_extend run_batches batches_written apply_op b_finish b_finish_full b_count b_stats b_len build_map_v
   view_of fst_get fst_contains get_key range search_with_state api_get api_contains api_get_key api_range api_search api_search_with_state api_stream api_len read_meta
-  spec_calls spec_content accepted_prefix spec_range spec_search spec_get_key lookup
+  spec_calls spec_content accepted_prefix spec_batches spec_range spec_search spec_get_key lookup
   src_registry_rows src_registry_cols model_masked_crc32c denote run spec_open_class spec_parse wf_fst_b spec_read.
